@@ -592,4 +592,104 @@ class C07Plan(C04Plan):
         super().evidence(tier, seed, t0, tasks, results, by_sig, known_seen, st, extra=extra, **kw)
 
 
-PLANS = {"C20": C20Plan, "C19": C19Plan, "C08": C08Plan, "C04": C04Plan, "C05": C05Plan, "C07": C07Plan}
+class C09Plan(RunPlan):
+    prop = "C09"
+    engine = "BOOT"
+    selftest_quick = 4
+    selftest_thorough = 16
+    rule = ("one evaluation = one observed boot: the real import of the shipped modules under the boot tracer for "
+            "one boot configuration (default order, every module alone, seeded import orders/subsets), whose "
+            "recorded declaration history (every equate/translate call with module and line, including declarations "
+            "later overwritten) is analysed exhaustively: sizes of all named units are solved from the anchors in "
+            "canonical (module,line) order with exact rationals, every remaining declaration closes a cycle and must "
+            "have residual <= 1e-5 per degree; then, in a forked world of that boot, every named base unit with a "
+            "physical dimension is converted to and from the coherent SI product of its dimension and compared with "
+            "the solved size. exhaustive over the declared edges and named units of each boot; the boots are sampled. "
+            "Non-trivial = a boot with >=1 cycle edge checked; distinct = distinct digests (declaration sets).")
+    components = {
+        "real": ["measured (entire package, real import)", "conversions planner (for the SI connectivity clause)"],
+        "simulated": ["boot configurations (import order/subset, PYTHONHASHSEED)", "fresh world per boot (fork)"],
+        "stub": [],
+    }
+
+    def boots(self, tier, seed):
+        import random
+
+        from sim.util import h64
+
+        boots = [{"imports": list(ALL_MODULES), "trace": True, "opt": False, "hashseed": 0}]
+        singles = [{"imports": [m], "trace": True, "opt": False, "hashseed": 0} for m in ALL_MODULES]
+        rng = random.Random(h64(seed, "c09-boots"))
+        perms = []
+        for _ in range(6 if tier == "quick" else 48):
+            mods = list(ALL_MODULES)
+            rng.shuffle(mods)
+            k = rng.randint(2, len(mods))
+            perms.append({"imports": mods[:k], "trace": True, "opt": False, "hashseed": 0})
+        if tier == "quick":
+            rng.shuffle(singles)
+            return boots + singles[:5] + perms
+        return boots + singles + perms
+
+    def check(self, tier, seed, args, t0):
+        self._tier = tier
+        return super().check(tier, seed, args, t0)
+
+    def request(self, run_seed, boot):
+        return {"engine": "BOOT", "what": "c09", "timeout": 300}
+
+    def nontrivial(self, r):
+        return r.get("counters", {}).get("C09.cycle_edges.checked", 0) > 0
+
+    def check_tasks(self, tier, seed, n):
+        return [(b, self.request(0, b)) for b in self.boots(tier, seed)]
+
+    def replay(self, rp):
+        return driver.one(rp["boot"], dict(rp["request"]))
+
+    def minimise_and_write(self, sig, task, result, v):
+        boot, req = task
+        # minimise the boot: fewest modules that still show the violation
+        mods = list(boot["imports"])
+        t_evals = 0
+
+        def test(ms):
+            nonlocal t_evals
+            t_evals += 1
+            r = driver.one(dict(boot, imports=ms), req)
+            return any(x["signature"] == sig for x in r.get("violations", []))
+
+        i = 0
+        while i < len(mods) and len(mods) > 1 and t_evals < 14:
+            cand = mods[:i] + mods[i + 1:]
+            if test(cand):
+                mods = cand
+            else:
+                i += 1
+        b2 = dict(boot, imports=mods)
+        final = driver.one(b2, req)
+        rp = {"property": "C09", "signature": sig, "boot": b2, "request": req,
+              "expect": {"signature": sig, "digest": final.get("digest")},
+              "violation": [x for x in final.get("violations", []) if x["signature"] == sig][:1],
+              "source_hashes": source_hashes()}
+        d = os.path.join(REPLAY_DIR, "C09")
+        os.makedirs(d, exist_ok=True)
+        import re as _re
+
+        path = os.path.join(d, _re.sub(r"[^A-Za-z0-9_.+-]", "_", sig)[:100] + ".json")
+        with open(path, "w") as f:
+            json.dump(rp, f, indent=1)
+        return path
+
+    def samples(self, tasks, results):
+        out_ = []
+        for (b, req), r in list(zip(tasks, results))[:3]:
+            out_.append({"boot_imports": b["imports"], "declarations": r.get("counters", {}).get("C09.declarations"),
+                         "cycle_edges": r.get("counters", {}).get("C09.cycle_edges.checked"),
+                         "units_converted_to_and_from_SI": r.get("counters", {}).get("C09.si.units.checked"),
+                         "digest": r.get("digest")})
+        return out_
+
+
+PLANS = {"C20": C20Plan, "C19": C19Plan, "C08": C08Plan, "C04": C04Plan, "C05": C05Plan, "C07": C07Plan,
+         "C09": C09Plan}
